@@ -5,6 +5,7 @@ set -u
 ID="$1"; MODE="${2:-quick}"; ARG="${3:-}"; [ -n "$ARG" ] && ARG=$(realpath "$ARG")
 export GOFLAGS=-mod=mod GOPROXY=off GOSUMDB=off GOTOOLCHAIN=local
 export GOCACHE=/verif/.cache/go-build
+export GODEBUG=goindex=0
 REPO=/repo
 V=/verif
 W="$V/.work/$ID.$$"
@@ -49,6 +50,12 @@ C14)
   ;;
 C15)
   build "$W/bin" ./cmd/$LC || exit 3
+  ;;
+C16)
+  PRIM=$(go list -m -f '{{.Dir}}' github.com/goose-lang/primitive 2>/dev/null)
+  [ -n "$PRIM" ] || { echo "harness error: primitive module not found" >&2; exit 3; }
+  instr $REPO/machine/prims.go=sync,time,chan,go $PRIM/prims.go=sync,time,chan,go
+  build "$W/bin" ./cmd/$LC -overlay "$W/ov.json" || exit 3
   ;;
 *) echo "unknown property $ID" >&2; exit 3;;
 esac
